@@ -371,6 +371,12 @@ def parseOp (parts : List String) (pjHist : Array (JFile PatchesState)) (sjHist 
     match sjHist[k]? with
     | some (.ok v) => pure (.damage (.sjSet v))
     | _ => none
+  | ["dmg", "sj-stale", k, "t"] => do
+    -- the same earlier state.json with its event timestamps moved far into the future: the model has no timestamps
+    let k ← k.toNat?
+    match sjHist[k]? with
+    | some (.ok v) => pure (.damage (.sjSet v))
+    | _ => none
   | ["dmg", "nop"] => some (.damage .nop)
   | _ => none
 
